@@ -965,10 +965,11 @@ def fmt_ev(e):
 
 
 def compare_runs(orig_cfg, new_cfg, head, states=None, mode="final", regs=(), out_regs=(), base_map=None,
-                 same_path=False, stats=None, word="new", new_head=None):
+                 same_path=False, stats=None, word="new", new_head=None, calls=True):
     """Run both graphs from `head` on every state.  -> None | (bucket suffix, detail)
     mode "final": the bytes written by either run hold the same values at the exit;
-    mode "sequence": same ordered events (memory writes that change memory, call_* operator applications).
+    mode "sequence": same ordered events (memory writes that change memory and, with calls=True, call_* operator
+    applications with their argument values).
     regs: [(name, size)] compared by name at the exit; out_regs: [(name, size)] read in the new graph through
     final_reg(base_map); same_path: same sequence of executed blocks.  The exit destination is always compared.
     States on which the original graph is undefined (division by zero), does not exit or runs out of budget are
@@ -1010,12 +1011,17 @@ def compare_runs(orig_cfg, new_cfg, head, states=None, mode="final", regs=(), ou
                 if b1 != b2:
                     return ("memory", "state %d: byte at 0x%x is 0x%02x at the exit of the original, 0x%02x in the "
                             "%s graph %s" % (k, cell[1], b1, b2, word, paths))
-        elif r1.effective != r2.effective:
+        else:
+            ev1, ev2 = r1.effective, r2.effective
+            if not calls:
+                ev1 = [e for e in ev1 if e[0] != "call"]
+                ev2 = [e for e in ev2 if e[0] != "call"]
+        if mode != "final" and ev1 != ev2:
             n = 0
-            while n < min(len(r1.effective), len(r2.effective)) and r1.effective[n] == r2.effective[n]:
+            while n < min(len(ev1), len(ev2)) and ev1[n] == ev2[n]:
                 n += 1
-            e1 = r1.effective[n] if n < len(r1.effective) else None
-            e2 = r2.effective[n] if n < len(r2.effective) else None
+            e1 = ev1[n] if n < len(ev1) else None
+            e2 = ev2[n] if n < len(ev2) else None
             kind = "calls" if "call" in (e1 or e2)[0] else "memory-writes"
             return (kind, "state %d: event %d differs: original %s, %s %s %s"
                     % (k, n, fmt_ev(e1), word, fmt_ev(e2), paths))
